@@ -50,9 +50,29 @@ def uptoClose : List Ev → List Ev
   | [] => []
   | e :: rest => if e = .ctlClose then [e] else e :: uptoClose rest
 
+/-- the events strictly before the first command write, and the bytes of that write (`none`: nothing is written) -/
+def splitAtFirstCtlWrite : List Ev → Option (List Ev × Bytes)
+  | [] => none
+  | .ctlWrite b :: _ => some ([], b)
+  | e :: rest =>
+    match splitAtFirstCtlWrite rest with
+    | some (pre, b) => some (e :: pre, b)
+    | none => none
+
+/-- the control socket has an SSL layer whose handshake did not complete (`connectT` threw at the handshake): nothing
+    can be written on it any more -/
+def WorldT.broken (w : WorldT) : Bool := w.ctlSsl && !w.ctlTls
+
 /-- run a program of the plain model; its events are recorded with the current state of the control channel -/
 def lift {α} (m : M α) : MT α := fun w =>
   let (r, b) := m { w.base with trace := [] }
+  -- a write through an SSL layer whose handshake failed: no byte leaves the process, the call throws at its first
+  -- command write - after the observers were told about the request; the plain state is left as it was
+  -- (the tag `w.ctlTls` is `false` here)
+  match (if w.broken then splitAtFirstCtlWrite b.trace else none) with
+  | some (pre, cmd) =>
+    (.throw, { w with trace := w.trace ++ (pre ++ [Ev.ctlWriteFail cmd]).map (EvT.ev w.ctlTls) })
+  | none =>
   -- the 421 branch of control_connection::recv closes the connection through the SSL layer as well: when the peer
   -- has gone without answering the close-notify, the TLS shutdown reports an error - after the socket was closed
   -- and before the reply is passed on (the observers are not told)
